@@ -653,7 +653,8 @@ func (s *Service) streamResponse(clientCtx, upstreamCtx context.Context, w http.
 	// The deadline timer above is only looked at between reads, but a backend that goes
 	// silent keeps us blocked inside resp.Body.Read, so on its own it never fires in time.
 	// A watchdog closes the response body when no read has completed for read_timeout,
-	// which makes the blocked Read return; it is re-armed before every read.
+	// which makes the blocked Read return; it is re-armed before every read and stopped as
+	// soon as the read returns, so time spent writing to a slow client is not counted.
 	var stalled atomic.Bool
 	watchdog := time.AfterFunc(s.configuration.GetReadTimeout(), func() {
 		stalled.Store(true)
@@ -681,7 +682,17 @@ func (s *Service) streamResponse(clientCtx, upstreamCtx context.Context, w http.
 		watchdog.Reset(s.configuration.GetReadTimeout())
 
 		// Read and process data
-		if err := s.processStreamData(resp, buffer, state, w, isStreaming, rc, rlog); err != nil {
+		readDone := func() {
+			// both timers time the backend, not the client write that follows the read
+			watchdog.Stop()
+			if !readDeadline.Stop() {
+				select {
+				case <-readDeadline.C:
+				default:
+				}
+			}
+		}
+		if err := s.processStreamData(resp, buffer, state, w, isStreaming, rc, readDone, rlog); err != nil {
 			if stalled.Load() {
 				return state.totalBytes, state.lastChunk, fmt.Errorf("read timeout after %v", s.configuration.GetReadTimeout())
 			}
